@@ -36,6 +36,8 @@ func init() {
 			// connection (and whose handshake notifications nobody collects) must go on serving the other
 			{Name: "state-machine-stalled-cea", Weight: 1, Bubble: true, Run: func(e *Env) { smaRun(e, "C08") }},
 			{Name: "client-two-connections-blocked-handler", Weight: 1, Bubble: true, Run: c08ClientTwo},
+			{Name: "sweep-schedules", Bubble: true, Run: c08Sweep, SweepN: c08SweepN, QuickSweep: true, Exhaustive: true,
+				SweepNote: "2 connections x 2 messages: every interleaving of the two connections' step sequences (deliver, deliver, release, release in both per-connection orders; 70 x 4) x every choice of which of the 4 handlers park (16): 4 480 schedules, each followed by the drain and the history oracle"},
 			{Name: "serve-yield", Weight: 3, Bubble: true, Run: func(e *Env) {
 				t := e.T
 				cfg := srvCfg{prop: "C08", nConns: t.Range(2, 3), nDialled: t.Draw(2), msgsPer: [2]int{1, 5}, parkPct: 50, answerPct: 30, yields: true, cnTasks: true}
@@ -168,5 +170,49 @@ func c09Sweep(e *Env) {
 	f := &tableForce{app: tg.app, code: tg.code, req: tg.req, mask: k % 128, all: k / 128}
 	e.NonTrivial()
 	cfg := srvCfg{prop: "C09", nConns: 1, msgsPer: [2]int{1, 2}, parkPct: 20, answerPct: 20, table: true, tableForce: f}
+	newSrvWorld(e, cfg).run()
+}
+
+// c08Interleavings: the 70 ways to merge two sequences of four steps (bit i set = step i is connection 0's).
+var c08Interleavings = func() []int {
+	var out []int
+	for m := 0; m < 256; m++ {
+		n := 0
+		for b := m; b != 0; b &= b - 1 {
+			n++
+		}
+		if n == 4 {
+			out = append(out, m)
+		}
+	}
+	return out
+}()
+
+var c08Orders = [][]byte{{'d', 'd', 'r', 'r'}, {'d', 'r', 'd', 'r'}}
+
+func c08SweepN(thorough bool) int { return len(c08Interleavings) * 4 * 16 }
+
+func c08Sweep(e *Env) {
+	k := e.Case
+	if k < 0 {
+		k = e.T.Draw(c08SweepN(false))
+	}
+	il := c08Interleavings[k%len(c08Interleavings)]
+	k /= len(c08Interleavings)
+	o0, o1 := c08Orders[k%2], c08Orders[(k/2)%2]
+	k /= 4
+	var sched []schedTok
+	i0, i1 := 0, 0
+	for step := 0; step < 8; step++ {
+		if il&(1<<step) != 0 {
+			sched = append(sched, schedTok{0, o0[i0]})
+			i0++
+		} else {
+			sched = append(sched, schedTok{1, o1[i1]})
+			i1++
+		}
+	}
+	e.NonTrivial()
+	cfg := srvCfg{prop: "C08", nConns: 2, msgsPer: [2]int{2, 2}, sched: sched, parkMask: k % 16}
 	newSrvWorld(e, cfg).run()
 }
